@@ -251,6 +251,7 @@ def main(argv):
         'foreign_sentinel_trips': dict(m['foreign_trips']),
         'anchors': anchors,
         'functions_reached': len(m['reached']),
+        'functions_reached_names': sorted(m['reached']),
         'known_findings_seen': {k: {'cases': v['count'], 'mechanisms': v['mechanisms']} for k, v in known.items()},
         'unlisted_mismatch_mechanisms': {k: m['mech_counts'][k] for k in violations},
         'shards': nshards,
